@@ -21,3 +21,4 @@ import PvModel.Props.C17Enforce
 #print axioms Pv.C17_labelling_invariants
 #print axioms Pv.C17_hidden_labelling_decides
 #print axioms Pv.C17_hidden_onceo
+#print axioms Pv.C17_enforce_assembly
